@@ -127,18 +127,11 @@ fn run_reader_ops(r: &mut SliceReader, model: &[u8], ops: &[ROp], obs: &mut Obs,
                     obs.count("probe:bytes-longer-than-remaining");
                     match got {
                         Ok(None) => {
-                            // the property does not say whether a refused
-                            // request consumes: re-synchronise on len(),
-                            // which may only have shrunk
-                            let l = r.len();
-                            if l > rem {
-                                return Err(fail(
-                                    "position",
-                                    "bytes-too-long",
-                                    format!("{}: len() grew from {rem} to {l} after a refused request", where_()),
-                                ));
-                            }
-                            pos = model.len() - l;
+                            // "returns nothing": like the reference cursor,
+                            // a refused request leaves the position alone
+                            // (checked by the len()/is_empty() comparison
+                            // after every operation, and by the reads that
+                            // follow)
                         }
                         Ok(Some(s)) => {
                             return Err(fail(
@@ -205,6 +198,7 @@ fn run_reader_ops(r: &mut SliceReader, model: &[u8], ops: &[ROp], obs: &mut Obs,
             return Err(fail(
                 "position",
                 match op {
+                    ROp::Bytes(n) if *n > rem => "bytes-too-long",
                     ROp::Bytes(_) => "bytes-in-range",
                     ROp::Sub(..) => "subreader",
                     ROp::Skip(_) => "skip",
@@ -339,11 +333,7 @@ fn gen_reader_ops(rng: &mut Rng, mut rem: usize, max_ops: usize, depth: usize) -
             ROp::U32 if rem >= 4 => rem -= 4,
             ROp::U64 if rem >= 8 => rem -= 8,
             ROp::Bytes(k) if *k <= rem => rem -= k,
-            ROp::Bytes(_) => {
-                // a refused request may or may not consume; stop planning
-                ops.push(op);
-                break;
-            }
+            ROp::Bytes(_) => {} // refused: position unchanged
             ROp::Skip(k) | ROp::Sub(k, _) => rem -= k,
             _ => {}
         }
@@ -516,7 +506,7 @@ impl Scenario for C18 {
             rule: "each run: 64 operation histories (<= 24 operations, sub-reader histories nested to depth 3) against a fresh SliceReader over a PRNG slice (0-64 octets, occasionally 4 KiB) or a fresh VecWriter; length arguments biased to 0, 1, remaining-1, remaining, remaining+1, remaining+8, usize::MAX; overwrite offsets biased to 0, len-|b|-1, len-|b|, len-|b|+1, len, len+1, usize::MAX-1, usize::MAX; unchecked reads, skip and subreader only when their precondition holds. After every operation the reader's len()/is_empty() and every returned value, resp. the writer's whole buffer, are compared with a (slice, position) cursor resp. a Vec<u8>. distinct_nontrivial = distinct histories.",
             assumptions: vec![
                 "an out-of-range overwrite counts as refused when it unwinds or returns with the buffer unchanged",
-                "after a refused bytes(n) the model re-synchronises on len(): the property does not say whether a refused request consumes",
+                "a refused bytes(n) is a no-op in the reference cursor ('returns nothing'): the position after it must be unchanged",
             ],
             real: vec!["SliceReader (all 9 methods, Copy/Clone)", "VecWriter (all 8 methods)"],
             stub: vec!["reference cursor and Vec<u8> model"],
